@@ -134,7 +134,7 @@ func ellswiftFamilies(c *mon.Ctx) {
 	})
 
 	// --- inverse: all 8 branches for (x on curve, u != 0); t equals the reference and decodes back to x
-	c.Family("ellswift.inv", scaled(c, 1500, 250000), func(k *mon.Case) {
+	c.Family("ellswift.inv", scaled(c, 1500, 150000), func(k *mon.Case) {
 		r := k.Rand
 		x, xcls := onCurveX(r)
 		u, ucls := edgeFE(r, false)
@@ -199,7 +199,7 @@ func ellswiftFamilies(c *mon.Ctx) {
 	})
 
 	// --- ECDH: V2Ecdh equals the reference for arbitrary 64-byte encodings, and is symmetric
-	c.Family("ellswift.ecdh", scaled(c, 700, 100000), func(k *mon.Case) {
+	c.Family("ellswift.ecdh", scaled(c, 700, 60000), func(k *mon.Case) {
 		r := k.Rand
 		var privA [32]byte
 		pcls := "random"
